@@ -88,6 +88,12 @@ func mixBLS(c *Ctx, g int) string {
 	hs := []hash.Hasher{h, h, h, h}
 	badSigs := append([]crypto.Signature{}, sigs...)
 	badSigs[1] = sigs[2]
+	pksId := append([]crypto.PublicKey{}, pks...)
+	pksId[2] = crypto.IdentityBLSPublicKey()
+	shortSigs := append([]crypto.Signature{}, sigs...)
+	shortSigs[1] = sigs[1][:20]
+	aggPk, _ := crypto.AggregateBLSPublicKeys(pks)
+	snapShort := append([]byte{}, shortSigs[1]...)
 	// the operations, each returning a printable result
 	ops := []func() string{
 		func() string { s, err := sks[0].Sign(msg, h); return hx(s) + errClass(err) },
@@ -99,6 +105,15 @@ func mixBLS(c *Ctx, g int) string {
 		func() string { ok, err := crypto.VerifyBLSSignatureManyMessages(pks, agg, msgs, hs); return fmt.Sprint(ok, errClass(err)) },
 		func() string { b, err := crypto.BatchVerifyBLSSignaturesOneMessage(pks, badSigs, msg, h); return fmt.Sprint(b, errClass(err)) },
 		func() string { ok, err := crypto.SPOCKVerifyAgainstData(pks[3], sigs[3], msg, h); return fmt.Sprint(ok, errClass(err)) },
+		// the shared signature list with a key list that holds the identity key (the entry is replaced internally: the
+		// caller's list must stay untouched), and a shared list with a signature of the wrong length
+		func() string { b, err := crypto.BatchVerifyBLSSignaturesOneMessage(pksId, sigs, msg, h); return fmt.Sprint(b, errClass(err)) },
+		func() string { b, err := crypto.BatchVerifyBLSSignaturesOneMessage(pks, shortSigs, msg, h); return fmt.Sprint(b, errClass(err)) },
+		func() string { ok, err := crypto.VerifyBLSSignatureOneMessage(pksId, agg, msg, h); return fmt.Sprint(ok, errClass(err)) },
+		func() string { k, err := crypto.AggregateBLSPublicKeys(pks); return hx(k.Encode()) + errClass(err) },
+		func() string { s, err := crypto.AggregateBLSSignatures(sigs); return hx(s) + errClass(err) },
+		func() string { k, err := crypto.RemoveBLSPublicKeys(aggPk, pks[:2]); return hx(k.Encode()) + errClass(err) },
+		func() string { return fmt.Sprint(pks[0].Equals(pks[1]), pks[2].Equals(pks[2]), pks[0].String() == pks[0].String()) },
 	}
 	want := make([]string, len(ops))
 	for i, op := range ops {
@@ -141,6 +156,9 @@ func mixBLS(c *Ctx, g int) string {
 		if !bytes.Equal(pks[i].Encode(), snapKeys[i]) || !bytes.Equal(sigs[i], snapSigs[i]) {
 			return "argument-modified"
 		}
+	}
+	if !bytes.Equal(shortSigs[1], snapShort) || len(shortSigs[1]) != 20 || !bytes.Equal(shortSigs[0], snapSigs[0]) {
+		return "argument-modified"
 	}
 	if !bytes.Equal(sks[0].Encode(), snapSk) || !bytes.Equal(msg, snapMsg) || !bytes.Equal(agg, snapAgg) || !bytes.Equal(h.ComputeHash(msg), wantHash) {
 		return "argument-modified"
